@@ -231,9 +231,15 @@ def run(ctx):
     r07_3(ctx)
     # the owner the reaper matches against is recorded for every job a worker really runs
     from .c03 import r03_5
-    r03_5(ctx)
+    from ..report import Only
+    r03_5(Only(ctx, ('recorded-before-callback', 'owner-is-always-recorded'), floor=4,
+               doc='ApplyResult._ack records acceptance and the owner before any user callback can fail, on every '
+                   'accepting path (the reaper finds the job of a dead worker through the recorded owner)'))
+    # a lost worker is replaced: the supervision tick refills after every reap, whoever reaped
+    from .c09 import r09_3
+    r09_3(ctx)
     from .c05 import helpers_hold_live_objects
-    helpers_hold_live_objects(ctx, 'R04.8', only=('ResultHandler',), floor=2)
+    helpers_hold_live_objects(ctx, 'R04.8', only=('ResultHandler.cache',), floor=1)
 
 
 _P = 'billiard/pool.py'
